@@ -25,6 +25,10 @@ def main() -> int:
             from checks import parse_family
 
             return parse_family.run(a.prop, tier, a.seed)
+        if a.prop == "C04":
+            from checks import c04
+
+            return c04.run(tier, a.seed)
         if a.prop == "C05":
             from checks import c05
 
